@@ -14,7 +14,17 @@ from concurrent.futures import ThreadPoolExecutor
 ROOT = os.environ.get("VERIF_ROOT") or os.path.dirname(os.path.dirname(os.path.abspath(__file__)))
 COQ = f"{ROOT}/coq"
 BUILD = f"{ROOT}/build"
-HARNESS_BIN = f"{BUILD}/cargo-target/release/harness"
+# VERIF_REPO (default /repo): the json-syntax tree the harness is built against.  A value
+# other than /repo is only used to try the checks on a scratch worktree carrying a seeded
+# change without touching /repo; it gets its own copy of the harness crate and target dir.
+REPO = os.path.abspath(os.environ.get("VERIF_REPO", "/repo"))
+ALT = REPO != "/repo"
+ALT_TAG = hashlib.sha1(REPO.encode()).hexdigest()[:8] if ALT else ""
+HARNESS_DIR = f"{BUILD}/alt-{ALT_TAG}/harness" if ALT else f"{ROOT}/harness"
+CARGO_TARGET = f"{BUILD}/alt-{ALT_TAG}/cargo-target" if ALT else f"{BUILD}/cargo-target"
+HARNESS_BIN = f"{CARGO_TARGET}/release/harness"
+# VERIF_OUT (default the framework root): where evidence/ and replays/ are written
+OUT = os.environ.get("VERIF_OUT") or ROOT
 DRIVER_BIN = f"{BUILD}/ocaml/driver"
 GUARD = "json_syntax_verif"
 
@@ -122,8 +132,13 @@ def ensure_driver():
 def ensure_harness():
     """cargo build of the harness against /repo's working tree, hooks enabled."""
     with Lock("cargo"):
-        env = {"CARGO_NET_OFFLINE": "true", "RUSTFLAGS": f"--cfg {GUARD}", "CARGO_TARGET_DIR": f"{BUILD}/cargo-target"}
-        rc, out = sh("cargo build --release --offline 2>&1", cwd=f"{ROOT}/harness", env=env, timeout=1800)
+        env = {"CARGO_NET_OFFLINE": "true", "RUSTFLAGS": f"--cfg {GUARD}", "CARGO_TARGET_DIR": CARGO_TARGET}
+        if ALT:
+            os.makedirs(HARNESS_DIR, exist_ok=True)
+            sh(["rsync", "-a", "--delete", "--exclude", ".cargo", f"{ROOT}/harness/", HARNESS_DIR + "/"], check=True)
+            ct = open(f"{HARNESS_DIR}/Cargo.toml").read().replace('path = "/repo"', f'path = "{REPO}"')
+            open(f"{HARNESS_DIR}/Cargo.toml", "w").write(ct)
+        rc, out = sh("cargo build --release --offline 2>&1", cwd=HARNESS_DIR, env=env, timeout=1800)
         return rc == 0, out
 
 
@@ -373,7 +388,7 @@ class Result:
 def correspondence(fam, tier, seed, nshards, nontrivial, extra=None, classify=None, sample_every=997, spec_matches=None):
     """Runs harness and driver shards in parallel and compares line by line."""
     res = Result()
-    outdir = f"{BUILD}/run/{fam}"
+    outdir = f"{BUILD}/run/{fam}{ALT_TAG}"
     shutil.rmtree(outdir, ignore_errors=True)
     os.makedirs(outdir)
     with ThreadPoolExecutor(max_workers=min(16, nshards)) as ex:
@@ -435,15 +450,15 @@ def load_known():
 # --------------------------------------------------------------------------- reporting
 
 def write_replay(pid, payload):
-    os.makedirs(f"{ROOT}/replays", exist_ok=True)
+    os.makedirs(f"{OUT}/replays", exist_ok=True)
     h = hashlib.sha1(json.dumps(payload, sort_keys=True).encode()).hexdigest()[:10]
-    path = f"{ROOT}/replays/{pid}-{h}.json"
+    path = f"{OUT}/replays/{pid}-{h}.json"
     json.dump(payload, open(path, "w"), indent=1)
     return path
 
 
 def write_evidence(pid, tier, seed, coverage, assumptions, wall, violations, level="proof"):
-    os.makedirs(f"{ROOT}/evidence", exist_ok=True)
+    os.makedirs(f"{OUT}/evidence", exist_ok=True)
     ev = {
         "property_id": pid,
         "tier": tier,
@@ -454,9 +469,9 @@ def write_evidence(pid, tier, seed, coverage, assumptions, wall, violations, lev
         "wall_s": round(wall, 2),
         "violations": violations,
     }
-    tmp = f"{ROOT}/evidence/{pid}.json.tmp"
+    tmp = f"{OUT}/evidence/{pid}.json.tmp"
     json.dump(ev, open(tmp, "w"), indent=1)
-    os.replace(tmp, f"{ROOT}/evidence/{pid}.json")
+    os.replace(tmp, f"{OUT}/evidence/{pid}.json")
 
 
 def run_property(cfg, tier, seed):
